@@ -873,9 +873,12 @@ func (d *DotGit) DeleteOldObjectPackAndIndex(hash plumbing.Hash, t time.Time) er
 		errs = append(errs, err)
 	}
 
-	siblings := []string{`idx`, `rev`}
+	// Likewise the index: a pack that could not be removed stays whole. A
+	// pack without its .idx cannot be read at all, and a storage that lists
+	// it fails to load its indexes, which takes every other pack with it.
+	var siblings []string
 	if packGone {
-		siblings = append(siblings, `promisor`)
+		siblings = []string{`idx`, `rev`, `promisor`}
 	}
 
 	for _, ext := range siblings {
